@@ -7,6 +7,8 @@
 EXTENDS Integers, Sequences, TLC, Json, IOUtils, PWire
 
 Trace == ndJsonDeserialize(IOEnv.TRACE)
+\* reflected message definitions (only for the message records; "-" = none)
+Defs == IF IOEnv.DEFS = "-" THEN <<>> ELSE JsonDeserialize(IOEnv.DEFS)
 
 VARIABLE l
 
@@ -14,6 +16,9 @@ Check(r) ==
   CASE r.e = "FW"  -> Check_FW(r)
     [] r.e = "FR"  -> Check_FR(r)
     [] r.e = "VEC" -> Check_VEC(r)
+    [] r.e = "DEF" -> Check_DEF(r, Defs[r.d])
+    [] r.e = "ENC" -> Check_ENC(r, Defs[r.d])
+    [] r.e = "DEC" -> Check_DEC(r, Defs[r.d])
     [] OTHER -> {"H_unknown_record_kind"}
 
 Init == l = 1
